@@ -21,7 +21,7 @@ import re
 from typing import Any
 
 from kopf._cogs.configs import diffbase, progress
-from kopf._cogs.structs import bodies, patches
+from kopf._cogs.structs import bodies, ids as ids_, patches
 
 from kv.explorer import Stats, Violation
 from kv.ref import rfc7386
@@ -369,8 +369,79 @@ def graph_check(tier: str, stats: Stats) -> list[Violation]:
     return list(viols.values())
 
 
+def sharing_check(tier: str, stats: Stats) -> list[Violation]:
+    """ONE storage instance serves all objects of an operator, for the life of the process: what it writes for an object, under which names,
+    and what it reads back must not depend on which objects it served before (a plain object, a ReplicaSet owned by a Deployment - whose
+    records kopf keeps under names of their own). Differential oracle: every operation of every sequence of <= 3 (4) operations over both
+    kinds of object, done by the long-lived instance, against the same single operation done by a FRESH instance of the same configuration."""
+    viols: dict[str, Violation] = {}
+
+    def add(kind: str, msg: str, **sig: Any) -> None:
+        v = Violation('C16', kind, msg, dict(kind=kind, **sig), scenario='sharing', labels=None)  # type: ignore[arg-type]
+        viols.setdefault(v.key(), v)
+
+    depth = 3 if tier == 'quick' else 4
+    hid = 'h1/sub'
+    essence = {'spec': {'x': 1}}
+
+    def perform(cfg: Cfg, what: str, raw: dict) -> tuple[Any, dict]:
+        body = bodies.Body(copy.deepcopy(raw))
+        patch = patches.Patch()
+        out: Any = None
+        if what == 'base-store':
+            cfg.base.store(body=body, patch=patch, essence=copy.deepcopy(essence))
+        elif what == 'base-fetch':
+            out = cfg.base.fetch(body=body)
+        elif what == 'base-build':
+            out = cfg.base.build(body=body)
+        elif what == 'prog-store':
+            cfg.prog.store(key=ids_.HandlerId(hid), record=copy.deepcopy(RECORDS[0]), body=body, patch=patch)
+        elif what == 'prog-fetch':
+            out = cfg.prog.fetch(key=ids_.HandlerId(hid), body=body)
+        elif what == 'prog-purge':
+            cfg.prog.purge(key=ids_.HandlerId(hid), body=body, patch=patch)
+        elif what == 'touch':
+            cfg.prog.touch(body=body, patch=patch, value='t1')
+        return json.loads(json.dumps(out, default=repr)), json.loads(json.dumps(dict(patch), default=repr))
+
+    whats = ['base-store', 'base-fetch', 'base-build', 'prog-store', 'prog-fetch', 'prog-purge', 'touch']
+    names = [c.name for c in configs()]
+    for ci, cname in enumerate(names):
+        # the objects as they look once both storages have written to them (by fresh instances): there is something to fetch and to purge
+        stocked: dict[str, dict] = {}
+        for fname, raw0 in flavours().items():
+            fresh = configs()[ci]
+            raw = copy.deepcopy(raw0)
+            for w in ('base-store', 'prog-store'):
+                _, p = perform(fresh, w, raw)
+                raw = server_apply(raw, patches.Patch(p))
+            stocked[fname] = raw
+        steps = [(f, w) for f in stocked for w in whats]
+        for n in range(2, depth + 1):
+            for seq in itertools.product(steps, repeat=n):
+                if len({f for f, _ in seq}) < 2:
+                    continue      # the point is the alternation of kinds
+                if tier == 'quick' and n == depth and seq[-1][1] not in ('base-store', 'base-fetch', 'prog-fetch', 'prog-store'):
+                    continue
+                shared = configs()[ci]
+                for i, (fname, what) in enumerate(seq):
+                    got = perform(shared, what, stocked[fname])
+                    if i == 0:
+                        continue
+                    want = perform(configs()[ci], what, stocked[fname])
+                    stats.executions += 1
+                    stats.states.add(hash((cname, seq[:i + 1])))
+                    stats.transitions.add(hash((cname, seq[:i], seq[i])))
+                    if got != want:
+                        add('served-objects-interfere', f"[{cname}] {what} on the {fname} object after serving {[f'{w}@{f}' for f, w in seq[:i]]}: the long-lived storage gives "
+                                                        f"{got}, a fresh one of the same configuration {want}", config=cname, what=what.split('-')[0])
+                        break
+                    stats.nontrivial.add(hash((cname, what, fname, json.dumps(got, sort_keys=True))))
+    return list(viols.values())
+
+
 def all_violations(tier: str, stats: Stats) -> list[Violation]:
-    return pool_check(tier, stats) + graph_check(tier, stats)
+    return pool_check(tier, stats) + graph_check(tier, stats) + sharing_check(tier, stats)
 
 
 def run(tier: str, seed: int) -> CheckResult:
